@@ -176,6 +176,7 @@ var ckinds = map[string]kindInfo{
 	"objnest":       {"objnest", []string{"fresh", "rebuilt"}},
 	"chain":         {"chain", []string{"fresh", "rebuilt"}},
 	"disabled":      {"disabled", []string{"fresh", "rebuilt"}},
+	"objreq":        {"objreq", []string{"fresh", "rebuilt"}},
 	"any_top":       {"anylist", []string{"fresh", "rebuilt"}},
 	"any_prop":      {"anylist", []string{"fresh", "rebuilt"}},
 	"compat2":       {"compat2", []string{"fresh", "rebuilt"}},
@@ -253,6 +254,8 @@ func buildScope(ckind string) (*schema.ScopeSchema, error) {
 			"s": prop(schema.NewRefSchema("inner", nil), schema.PointerTo(`{"a":5}`)),
 		})
 		return schema.NewScopeSchema(root, inner), nil
+	case "objreq":
+		return reqScope(), nil
 	case "any_top":
 		return wrap(schema.NewAnySchema()), nil
 	case "any_prop":
@@ -342,6 +345,15 @@ func buildScope(ckind string) (*schema.ScopeSchema, error) {
 	return nil, fmt.Errorf("unknown concrete kind %q", ckind)
 }
 
+// reqScope: root{a: REQUIRED, b, c, d, e, f}
+func reqScope() *schema.ScopeSchema {
+	props := map[string]*schema.PropertySchema{"a": schema.NewPropertySchema(intT(), nil, true, nil, nil, nil, nil, nil)}
+	for _, n := range []string{"b", "c", "d", "e", "f"} {
+		props[n] = prop(intT(), nil)
+	}
+	return schema.NewScopeSchema(schema.NewObjectSchema("root", props))
+}
+
 // compatScope: Root{a..e, limits: ref Limits}, Limits{count}; with deep=true count is a string - incompatible
 // deep inside, everything else equal.
 func compatScope(deep bool) *schema.ScopeSchema {
@@ -424,7 +436,7 @@ func build(ckind, origin string) (*instance, error) {
 	}
 	in.scope = s
 	switch info.kind {
-	case "objmap", "objstruct", "objdep", "objnest", "chain", "compat2", "disabled", "meta":
+	case "objmap", "objstruct", "objdep", "objnest", "chain", "compat2", "disabled", "objreq", "meta":
 		in.target = s
 	case "anylist":
 		if ckind == "any_prop" {
